@@ -147,8 +147,20 @@ func DiffPhys(a, b string) string {
 // spare elements hold old data, empty non-nil maps. The data - what Equal and
 // Dump see, what Marshal encodes - is unchanged. next(n) draws from [0,n).
 func Reshape(v reflect.Value, next func(n int) int) int {
+	aliasRows = false
 	return reshape(v, next, 0)
 }
+
+// ReshapeAliased is Reshape for a value whose data may change (the prior
+// content of a target that is about to be decoded into): rows of slices of
+// slices may additionally share memory with each other.
+func ReshapeAliased(v reflect.Value, next func(n int) int) int {
+	aliasRows = true
+	defer func() { aliasRows = false }()
+	return reshape(v, next, 0)
+}
+
+var aliasRows bool
 
 func reshape(v reflect.Value, next func(n int) int, depth int) int {
 	if depth > 40 || !v.IsValid() {
@@ -200,6 +212,31 @@ func reshape(v reflect.Value, next func(n int) int, depth int) int {
 		if t.Elem().Kind() != reflect.Uint8 {
 			for i := 0; i < v.Len(); i++ {
 				n += reshape(v.Index(i), next, depth+1)
+			}
+		}
+		// rows of a slice of slices that share memory: what callers' code leaves behind
+		// (a row deleted with copy(rows, rows[1:]), a matrix laid over one flat buffer,
+		// one default row stored in several places). Only where allowed to change the
+		// data (a target about to be overwritten), see ReshapeAliased.
+		if aliasRows && t.Elem().Kind() == reflect.Slice && t.Elem().Elem().Kind() != reflect.Uint8 && v.Len() >= 2 && next(2) == 0 {
+			i, j := next(v.Len()), next(v.Len())
+			if i != j && v.Index(j).Len() > 0 {
+				switch next(3) {
+				case 0: // the same header twice
+					v.Index(i).Set(v.Index(j))
+				case 1: // a prefix of the other row, capacity reaching into it
+					v.Index(i).Set(v.Index(j).Slice(0, 1+next(v.Index(j).Len())))
+				default: // the tail of the other row
+					k := next(v.Index(j).Len())
+					v.Index(i).Set(v.Index(j).Slice(k, v.Index(j).Len()))
+				}
+				n++
+			}
+			// and the spare capacity of the outer slice still holds headers of live rows
+			if full := v.Slice(0, v.Cap()); full.Len() > v.Len() {
+				for k := v.Len(); k < full.Len(); k++ {
+					full.Index(k).Set(v.Index(next(v.Len())))
+				}
 			}
 		}
 	case reflect.Map:
@@ -330,6 +367,164 @@ func overlaps(v reflect.Value, lo, hi uintptr, path string, depth int) (bool, st
 				return true, p
 			}
 			if ok, p := overlaps(it.Value(), lo, hi, fmt.Sprintf("%s[%v]", path, trunc(fmt.Sprint(it.Key()))), depth+1); ok {
+				return true, p
+			}
+		}
+	}
+	return false, ""
+}
+
+// Region is a range of memory a value owns and can change through: the backing
+// array of a slice (up to its capacity), the target of a pointer, a map
+// (identified by its address). String bytes are not included: they are
+// immutable, and interning shares them between results on purpose.
+type Region struct {
+	Lo, Hi uintptr
+	Path   string
+}
+
+// MutableRegions lists the regions of everything reachable from v.
+func MutableRegions(v reflect.Value) []Region {
+	var out []Region
+	regions(v, "", 0, &out)
+	return out
+}
+
+func regions(v reflect.Value, path string, depth int, out *[]Region) {
+	if depth > 200 || !v.IsValid() {
+		return
+	}
+	t := v.Type()
+	if t == tTime {
+		return
+	}
+	switch t.Kind() {
+	case reflect.Ptr:
+		if v.IsNil() {
+			return
+		}
+		if sz := t.Elem().Size(); sz > 0 {
+			*out = append(*out, Region{v.Pointer(), v.Pointer() + sz, path + ": the pointer's target"})
+		}
+		regions(v.Elem(), path+"*", depth+1, out)
+	case reflect.Interface:
+		if !v.IsNil() {
+			regions(v.Elem(), path, depth+1, out)
+		}
+	case reflect.Struct:
+		for i := 0; i < t.NumField(); i++ {
+			if t.Field(i).PkgPath == "" {
+				regions(v.Field(i), path+"."+t.Field(i).Name, depth+1, out)
+			}
+		}
+	case reflect.Slice:
+		if v.IsNil() {
+			return
+		}
+		if n := uintptr(v.Cap()) * t.Elem().Size(); n > 0 {
+			*out = append(*out, Region{v.Pointer(), v.Pointer() + n, fmt.Sprintf("%s: the slice's backing array (len %d, cap %d)", path, v.Len(), v.Cap())})
+		}
+		switch t.Elem().Kind() {
+		case reflect.Slice, reflect.Ptr, reflect.Struct, reflect.Interface, reflect.Map, reflect.Array:
+			for i := 0; i < v.Len(); i++ {
+				regions(v.Index(i), fmt.Sprintf("%s[%d]", path, i), depth+1, out)
+			}
+		}
+	case reflect.Array:
+		for i := 0; i < v.Len(); i++ {
+			regions(v.Index(i), fmt.Sprintf("%s[%d]", path, i), depth+1, out)
+		}
+	case reflect.Map:
+		if v.IsNil() {
+			return
+		}
+		*out = append(*out, Region{v.Pointer(), v.Pointer() + 1, path + ": the map"})
+		it := v.MapRange()
+		for it.Next() {
+			regions(it.Key(), path+"[key]", depth+1, out)
+			regions(it.Value(), fmt.Sprintf("%s[%v]", path, trunc(fmt.Sprint(it.Key()))), depth+1, out)
+		}
+	}
+}
+
+// RegionsOverlap returns the first pair of overlapping regions.
+func RegionsOverlap(a, b []Region) (bool, Region, Region) {
+	for _, x := range a {
+		for _, y := range b {
+			if x.Lo < y.Hi && y.Lo < x.Hi {
+				return true, x, y
+			}
+		}
+	}
+	return false, Region{}, Region{}
+}
+
+// AbandonedChanged compares kept - a shallow copy the caller took of a target's
+// value before decoding into the target again - with exp, a deep copy taken at
+// the same moment. Memory the target still uses (now: its regions after the
+// decode) may have been rewritten, that is what re-using a target means; but
+// memory that only the caller's copy still references belongs to the caller:
+// nobody may write to it any more. Returns the path of the first change.
+func AbandonedChanged(kept, exp reflect.Value, now []Region) (bool, string) {
+	return abandoned(kept, exp, now, "", 0)
+}
+
+func inUse(lo, hi uintptr, now []Region) bool {
+	for _, r := range now {
+		if lo < r.Hi && r.Lo < hi {
+			return true
+		}
+	}
+	return false
+}
+
+func abandoned(k, e reflect.Value, now []Region, path string, depth int) (bool, string) {
+	if depth > 100 || !k.IsValid() || !e.IsValid() {
+		return false, ""
+	}
+	t := k.Type()
+	if t == tTime {
+		return false, ""
+	}
+	switch t.Kind() {
+	case reflect.Struct:
+		for i := 0; i < t.NumField(); i++ {
+			if t.Field(i).PkgPath != "" {
+				continue
+			}
+			if ch, p := abandoned(k.Field(i), e.Field(i), now, path+"."+t.Field(i).Name, depth+1); ch {
+				return true, p
+			}
+		}
+	case reflect.Ptr:
+		if k.IsNil() || e.IsNil() {
+			return false, ""
+		}
+		sz := t.Elem().Size()
+		if sz > 0 && !inUse(k.Pointer(), k.Pointer()+sz, now) {
+			if ok, p := eq(k.Elem(), e.Elem(), path+"*", depth+1); !ok {
+				return true, p
+			}
+			return false, ""
+		}
+		// the target still points there: look inside for parts it dropped
+		return abandoned(k.Elem(), e.Elem(), now, path+"*", depth+1)
+	case reflect.Slice:
+		if k.IsNil() || k.Cap() == 0 {
+			return false, ""
+		}
+		n := uintptr(k.Cap()) * t.Elem().Size()
+		if n > 0 && !inUse(k.Pointer(), k.Pointer()+n, now) {
+			if ok, p := eq(k, e, path, depth+1); !ok {
+				return true, p
+			}
+		}
+	case reflect.Map:
+		if k.IsNil() {
+			return false, ""
+		}
+		if !inUse(k.Pointer(), k.Pointer()+1, now) {
+			if ok, p := eq(k, e, path, depth+1); !ok {
 				return true, p
 			}
 		}
